@@ -249,6 +249,9 @@ def run(R, tier):
     LX.check_unit_separator_typestate(R, "R02.9")
     # header mnemonics of every legal length (up to 12 characters, `*` included) reach the tree as one element
     LX.check_elements(R, "R02.9", ("mnemonic",), tier == "thorough")
+    # ---- R02.10 whole messages: the composition of the per-step tables, folded end to end --------------------------------------------
+    from . import msgtable as MT
+    MT.check(R, "R02.10", "resolve", tier, "Node::run on whole messages against a concrete tree (default leaves and branches at several depths and positions, numeric suffixes, an unnamed default leaf, common commands) with the real tokenizer, dispatcher and matcher analysed in place: every spelling of every header (optional nodes omitted or spelled, short / long form) runs its own handler in the form `?` selects, and in two- and three-unit messages every relative, absolute and common header resolves - or fails with -113 - as SCPI-99 6.2.4 says from the level the previous unit left", 300)
     R.trust("IEEE 488.2 7.6 / SCPI-99 6.2.4 compound header rules as encoded in the expected tables of sa/rules/c02.py")
 
 
